@@ -94,6 +94,13 @@ CHECKS["C04"] = dict(
     technique="exhaustive single-point mutation of enumerated program trees on the real pipeline, CPython execution as oracle",
 )
 
+CHECKS["C14"] = dict(
+    category="exploration",
+    text="Base programs: M0 pool programs of <= 14 (22) lines from every family and the 45 smallest (all <= 60-line) repository samples, valid and invalid. For each base, EVERY placement of every listed trivia item is generated: at every gap between lines (including before the first, before dedents and at end of file) a whole-line comment indented like the previous statement, one indented like the next statement, an empty line and whitespace-only lines of 2/4/8/12 spaces; after every code line a trailing comment and trailing spaces; final newline on/off; all line ends LF -> CRLF (with and without final newline); every existing comment / blank line removed; in the thorough tier every PAIR of insertions for bases of <= 6 lines. The verdict must be unchanged and the emitted Python byte-identical. Redundant parentheses are put around every sub-expression of every M0 tree: verdict unchanged and, if the text differs, identical behaviour under CPython.",
+    design_ref="DESIGN.md §4 C14", note="Gaps inside multi-line string literals are not touched; parent-class arguments are not expression positions in the grammar and get no parentheses. One benign shape change (C14-F1) is a known finding.",
+    technique="bounded-exhaustive metamorphic enumeration of all trivia placements on the real pipeline, byte equality of the output",
+)
+
 REASON_PENDING = "check not built yet in this session (see DESIGN.md Appendix D build order); nothing is claimed for it"
 
 
